@@ -23,6 +23,17 @@ from statham.schema.validation import (
 RESERVED_PROPERTIES = dir(object) + list(keyword.kwlist) + ["_dict"]
 
 
+def _docstring_body(text: str) -> str:
+    """Escape a description so that the generated docstring denotes it."""
+    text = text.replace("\\", "\\\\").replace("\r", "\\r")
+    text = text.replace('"""', '\\"\\"\\"')
+    if text.endswith('"'):
+        head = text[:-1]
+        if (len(head) - len(head.rstrip("\\"))) % 2 == 0:
+            text = head + '\\"'
+    return text
+
+
 class ObjectClassDict(dict):
     """Overriden class dictionary for the metaclass of Object.
 
@@ -179,7 +190,7 @@ class ObjectMeta(type, Element):
         if not cls.description is None and not isinstance(
             cls.description, NotPassed
         ):
-            class_def += f'    """{cls.description}"""\n'
+            class_def += f'    """{_docstring_body(cls.description)}"""\n'
         if not cls.properties:
             class_def = (
                 class_def
